@@ -92,6 +92,25 @@ def walk(t):
                 yield from walk(x)
 
 
+def walk_unique(t, seen):
+    """Like walk(), but each distinct tuple object is visited once (terms share sub-terms heavily)."""
+    stack = [t]
+    while stack:
+        x = stack.pop()
+        if not isinstance(x, tuple) or id(x) in seen:
+            continue
+        seen.add(id(x))
+        if x and isinstance(x[0], str):
+            yield x
+            for y in x[1:]:
+                if isinstance(y, tuple):
+                    stack.append(y)
+        else:
+            for y in x:
+                if isinstance(y, tuple):
+                    stack.append(y)
+
+
 def subst(t, f):
     """Bottom-up rewrite: f(term) -> term or None (keep)."""
     if not isinstance(t, tuple):
@@ -311,3 +330,13 @@ def simp1(t):
 
 def simp(t):
     return subst(t, simp1)
+
+
+def simp_top(t):
+    """Simplify only at the root (children are already simplified when terms are built bottom-up)."""
+    for _ in range(8):
+        r = simp1(t)
+        if r is None or r == t:
+            return t
+        t = r
+    return t
